@@ -3,6 +3,8 @@ package props
 import (
 	"errors"
 	"fmt"
+	cd "github.com/go-kid/ioc/component_definition"
+	"github.com/go-kid/ioc/container/processors"
 
 	"github.com/go-kid/ioc/app"
 	"github.com/go-kid/ioc/definition"
@@ -88,10 +90,11 @@ type c14Case struct {
 	Steps  int   `json:"body_steps"`
 	Slow   int   `json:"slow_closer"` // -1 none
 	Wired  bool  `json:"wired_by_real_start,omitempty"`
-	Both   bool  `json:"closers_are_runners_too,omitempty"` // wired closers also implement ApplicationRunner
-	AppDep int   `json:"closers_depend_on_app,omitempty"`   // wired closers hold the App itself: 1 directly, 2 through another component
-	Late   bool  `json:"named_after_the_app,omitempty"`     // their names sort after the App's own component name (created after it)
-	Zero   int   `json:"zero_size_closers,omitempty"`       // mask: stateless closers of field-less types (one shared address)
+	Both   bool  `json:"closers_are_runners_too,omitempty"`             // wired closers also implement ApplicationRunner
+	AppDep int   `json:"closers_depend_on_app,omitempty"`               // wired closers hold the App itself: 1 directly, 2 through another component
+	Late   bool  `json:"named_after_the_app,omitempty"`                 // their names sort after the App's own component name (created after it)
+	Claim  bool  `json:"user_scanner_claims_the_apps_fields,omitempty"` // a user tag scanner declares the App's closer / runner slices as wire points too
+	Zero   int   `json:"zero_size_closers,omitempty"`                   // mask: stateless closers of field-less types (one shared address)
 	Bound  int   `json:"preemption_bound"`
 	Script []int `json:"schedule,omitempty"`
 }
@@ -130,6 +133,14 @@ func c14Gen(c *core.Ctx) func(yield func(c14Case) bool) {
 			}
 			if n >= 1 && !yield(c14Case{N: n, Fail: 0, Steps: 0, Slow: -1, Wired: true, Both: true, Bound: bound}) {
 				return
+			}
+			// a user tag scanner that (also) declares the App's own collection fields as injection points
+			if n >= 1 {
+				for _, both := range []bool{false, true} {
+					if !yield(c14Case{N: n, Fail: 0, Steps: 0, Slow: -1, Wired: true, Both: both, Claim: true, Bound: bound}) {
+						return
+					}
+				}
 			}
 			// closers that depend on the App itself (they sit on a cycle with the App's own slice of
 			// closers), created before or after it
@@ -218,9 +229,20 @@ func c14Run(c *core.Ctx) {
 			if cs.AppDep == 2 {
 				anys = append(anys, &c14Helper{})
 			}
+			if cs.Claim {
+				sc := &c14ClaimScanner{}
+				sc.NodeType = cd.PropertyTypeComponent
+				sc.ExtractHandler = func(m *cd.Meta, f *cd.Field) (string, string, bool) {
+					if _, isApp := m.Raw.(*app.App); isApp && (f.StructField.Name == "CloserComponents" || f.StructField.Name == "ApplicationRunners") {
+						return "wire", ",required=false", true
+					}
+					return "", "", false
+				}
+				anys = append(anys, sc)
+			}
 			a = app.NewApp()
 			if err := a.Run(app.SetComponents(anys...)); err != nil || len(a.CloserComponents) != cs.N {
-				c.Report("C14/wiring/"+core.Hash(cs), "not-exactly-once", fmt.Sprintf("after a real start only %d of the %d registered closers (closers are runners too: %v) are known to App.Close (err=%v): the others can never be closed", len(a.CloserComponents), cs.N, cs.Both, err), cs)
+				c.Report("C14/wiring/"+core.Hash(cs), "not-exactly-once", fmt.Sprintf("after a real start App.Close knows %d closers for %d registered ones (closers are runners too: %v, err=%v): a closer is missing (it can never be closed) or listed twice", len(a.CloserComponents), cs.N, cs.Both, err), cs)
 				return
 			}
 		}
@@ -241,7 +263,7 @@ func c14Run(c *core.Ctx) {
 			cc := cs
 			cc.Script = e.Script
 			key := func(kind string) string {
-				return "C14/" + kind + "/" + core.Hash(cs.N, cs.Fail, cs.Steps, cs.Slow, cs.Wired, cs.AppDep, cs.Late)
+				return "C14/" + kind + "/" + core.Hash(cs.N, cs.Fail, cs.Steps, cs.Slow, cs.Wired, cs.AppDep, cs.Late, cs.Claim)
 			}
 			switch {
 			case e.Deadlock:
@@ -318,6 +340,13 @@ func c14ZReset() { scen.ZLog = nil }
 
 //go:norace
 func c14ZSnapshot() []string { return append([]string{}, scen.ZLog...) }
+
+// c14ClaimScanner is a user tag scanner (the stock one with an ExtractHandler).
+type c14ClaimScanner struct {
+	processors.DefaultTagScanDefinitionRegistryPostProcessor
+}
+
+func (*c14ClaimScanner) Naming() string { return "zz-c14scanner" }
 
 // closers that hold the App itself, directly or through a helper component
 type c14AppCloser struct {
